@@ -34,6 +34,8 @@ def jobs(tier, seed):
         out.append({"kind": "term-copy", "vars": vs})
     out.append({"kind": "term-copy", "vars": ["x", "y", "z"]})
     out.append({"kind": "term-triple", "vars": ["x"]})
+    out.append({"kind": "term-renamed", "vars": ["x", "y"]})
+    out.append({"kind": "term-renamed", "vars": ["x", "y", "z"]})
     # lists: concrete coefficient patterns (equal or differing in one coefficient), symbolic constants
     pats = [[{"x": 1, "y": 2}], [{"x": 1, "y": 2}, {"x": -1}], [{"x": 1}, {"x": 1}], [{"x": 2, "y": -1}, {"y": 1}, {"x": 1, "y": 1}]]
     for pa in pats:
@@ -48,7 +50,7 @@ def jobs(tier, seed):
     out.append({"kind": "var"})
     alphabet = [-2, -1, 1, 2]
     n = 120 if tier == "quick" else 6000
-    edits = ["none", "inputs-order", "inputs", "outputs", "outputs-order", "constant", "coefficient", "term-order", "copy", "drop-term"]
+    edits = ["none", "inputs-order", "inputs", "outputs", "outputs-order", "constant", "coefficient", "term-order", "copy", "drop-term", "simplify-in-place"]
     for i in range(n):
         ins, outs = rng.choice([(["x", "u"], ["y"]), (["x"], ["y", "z"]), (["x", "u"], ["y", "z"])])
         c = CS.rand_contract(rng, ins, outs, alphabet, na=(0, 1, 2), ng=(1, 2))
@@ -107,6 +109,19 @@ def run(ctx, job):
         ctx.tag("term")
         vs = job["vars"]
         a = sym_term(ctx, vs, "a")
+        if kind == "term-renamed":
+            # a term obtained by renaming (coefficients are added, possibly cancelling) is an ordinary term:
+            # equal to its copy and to the same term built directly, with equal hashes
+            E = O.E
+            b = a.rename_variable(B.Var(vs[0]), B.Var(vs[1]))
+            r = check_pair(ctx, b, b.copy(), "term-renamed-copy-")
+            ctx.expect("term-renamed-equals-its-copy", r is True)
+            direct = {v: a.variables.get(B.Var(v), 0) for v in vs[1:]}
+            direct[vs[1]] = a.variables.get(B.Var(vs[1]), 0) + a.variables.get(B.Var(vs[0]), 0)
+            d = P.PolyhedralTerm({B.Var(v): c for v, c in direct.items()}, a.constant)
+            r2 = check_pair(ctx, b, d, "term-renamed-direct-")
+            ctx.expect("term-renamed-equals-directly-built-term", r2 is True)
+            return {"cls": "OK"}
         if kind == "term-copy":
             b = a.copy()
             # the same term with its coefficients supplied in another order is an equal term
@@ -204,6 +219,17 @@ def run(ctx, job):
         ctx.expect("contract-copy-equal", r is True)
         ctx.expect("contract-copy-shares-nothing", c2.a is not c1s.a and c2.g is not c1s.g and c2.inputvars is not c1s.inputvars and all(x is not y for x, y in zip(c2.g.terms, c1s.g.terms)))
         return {"cls": "OK", "res": c2}
+    if edit == "simplify-in-place":
+        # hash, then IoContract.simplify() (documented in-place mutator), then compare with a copy
+        k = PolyhedralIoContract(c1.a, P.PolyhedralTermList(c1.g.terms + [t.copy() for t in c1.a.terms]), c1.inputvars, c1.outputvars, simplify=False)
+        try:
+            hash(k)
+            k.simplify()
+            twin = k.copy()
+        except ValueError as e:
+            return {"cls": B.classify(e)}
+        check_pair(ctx, k, twin, "contract-after-simplify-")
+        return {"cls": "OK"}
     if edit == "none":
         c2 = B.mk_contract(ctx, spec, "p", simplify=False)
         differ = z3.BoolVal(False)
